@@ -1,6 +1,7 @@
 package mon
 
 import (
+	"context"
 	"bytes"
 	"fmt"
 	"sort"
@@ -569,6 +570,43 @@ func runC19(c *core.Ctx, res *core.Result) {
 					fail("finished_handle_usable", fmt.Sprintf("after commit/rollback the handle still works: TxGet err=%v, Commit err=%v, TxPut err=%v", e1, e2, e3))
 				}
 			}
+		}
+		cancel()
+	}
+	// a scan whose client goes away after a few rows, with more data pending than fits into the stream's
+	// flow-control window: the server's send fails in the middle of the scan and must still release the database
+	if len(res.Violations) == 0 && !transient && rw == nil && len(ros) == 0 && c.Idx%4 == 1 {
+		ctx, cancel := ctxT(60 * time.Second)
+		bulk := make([]byte, 6000)
+		for i := range bulk {
+			bulk[i] = byte('a' + i%26)
+		}
+		ok := true
+		for i := 0; i < 60 && ok; i++ {
+			k := []byte(fmt.Sprintf("bulk-%03d", i))
+			if _, err := cl.Put(ctx, &pb.PutRequest{Key: k, Value: bulk}); err != nil {
+				ok = false
+				break
+			}
+			model.Put(k, bulk)
+			keys = append(keys, k)
+		}
+		if ok {
+			sctx, scancel := context.WithCancel(ctx)
+			nrows := 0
+			if st, err := cl.Scan(sctx, &pb.ScanRequest{Prefix: []byte("bulk-")}); err == nil {
+				for want := r.Range(1, 4); nrows < want; nrows++ {
+					if _, err := st.Recv(); err != nil {
+						break
+					}
+				}
+			}
+			scancel()
+			time.Sleep(time.Duration(r.Range(10, 80)) * time.Millisecond)
+			trace = append(trace, fmt.Sprintf("Scan(prefix=bulk-) abandoned by the client after %d of 60 rows (360KB pending)", nrows))
+			kinds += "A"
+			res.Count("scans_abandoned_mid_stream", 1)
+			probe(fmt.Sprintf("a Scan whose client went away after %d rows", nrows))
 		}
 		cancel()
 	}
